@@ -464,6 +464,10 @@ class Gen:
             return ("sel", self.cond(sc, depth - 1), self.expr(sc, depth - 1, allow_call), els)
         if c == 15:
             f = r.choice(list(INTR1))
+            if f == "sqrt":
+                # sqrt of a negative number is NaN; comparisons with NaN are the open finding C01-nan-comparison,
+                # which has its own witness: the exploration stays off it
+                return ("intr1", f, ("intr1", "abs", self.expr(sc, depth - 1, allow_call)))
             return ("intr1", f, self.expr(sc, depth - 1, allow_call))
         if c == 16:
             f = r.choice(list(INTR2))
